@@ -538,4 +538,554 @@ Section Conf.
 
   Lemma nci_tail x r k : nci (x :: r) k = true -> nci r k = true.
   Proof. cbn [nci]. intros H. apply andb_true_iff in H as [_ H]. exact H. Qed.
+
+  (* ---------------------------------------------------------------------------------------- *)
+  (* what follows a term in formatter output                                                    *)
+  (* ---------------------------------------------------------------------------------------- *)
+  (* `,` `)` `}` `]` `>` and the four punctuation marks *)
+  Definition closer (c : N) : bool := memb c [44; 41; 125; 93; 62; 46; 33; 63; 64].
+  (* first characters of the 13 copulas *)
+  Definition cop_first (c : N) : bool := memb c [45; 60; 61; 123].
+  Definition follow_ok (k : str) : bool :=
+    match k with
+    | [] => true
+    | c :: r => closer c || ((c =? 32) && match r with d :: _ => cop_first d | [] => false end)
+    end.
+
+  Lemma memb_cases c l : memb c l = true -> In c l.
+  Proof. apply memb_In. Qed.
+
+  (* facts about one follow character, by cases *)
+  Lemma closer_facts c :
+    closer c = true ->
+    atom_charb c = false /\ isws c = false /\ (61 =? c) = false /\ (95 =? c) = false.
+  Proof.
+    intros H. apply memb_cases in H. cbn [In] in H.
+    repeat (destruct H as [<-|H]; [repeat split; ascii|]). destruct H.
+  Qed.
+  Lemma cop_first_facts c : cop_first c = true -> isws c = false /\ (95 =? c) = false.
+  Proof.
+    intros H. apply memb_cases in H. cbn [In] in H.
+    repeat (destruct H as [<-|H]; [repeat split; ascii|]). destruct H.
+  Qed.
+  Lemma space_facts : atom_charb 32 = false /\ isws 32 = true /\ (61 =? 32) = false.
+  Proof. repeat split; ascii. Qed.
+
+  Lemma follow_stop k : follow_ok k = true -> stop_ok k = true.
+  Proof.
+    unfold stop_ok. destruct k as [|c r]; [now rewrite orb_true_r|]. cbn [follow_ok]. intros H.
+    apply orb_true_iff in H as [H|H].
+    - destruct (closer_facts c H) as [Ha _]. now rewrite Ha, orb_true_r.
+    - apply andb_true_iff in H as [H _]. apply N.eqb_eq in H. subst c.
+      destruct space_facts as [Ha _]. now rewrite Ha, orb_true_r.
+  Qed.
+  Lemma follow_head k : follow_ok k = true -> follow_head_ok k = true.
+  Proof.
+    destruct k as [|c r]; [reflexivity|]. cbn [follow_ok follow_head_ok]. intros H.
+    apply orb_true_iff in H as [H|H].
+    - destruct (closer_facts c H) as [Ha [_ [He _]]]. now rewrite Ha, He.
+    - apply andb_true_iff in H as [H _]. apply N.eqb_eq in H. subst c.
+      destruct space_facts as [Ha [_ He]]. now rewrite Ha, He.
+  Qed.
+  Lemma follow_placeholder k : follow_ok k = true -> head_is 95 (dropws k) = false.
+  Proof.
+    destruct k as [|c r]; [reflexivity|]. cbn [follow_ok]. intros H.
+    apply orb_true_iff in H as [H|H].
+    - destruct (closer_facts c H) as [_ [Hw [_ H95]]]. rewrite (dropws_nows c r Hw). exact H95.
+    - apply andb_true_iff in H as [H Hd]. apply N.eqb_eq in H. subst c.
+      destruct space_facts as [_ [Hw _]]. rewrite (dropws_ws 32 r Hw).
+      destruct r as [|d r]; [discriminate|]. destruct (cop_first_facts d Hd) as [Hdw H95].
+      rewrite (dropws_nows d r Hdw). exact H95.
+  Qed.
+  Lemma follow_closer c r : closer c = true -> follow_ok (c :: r) = true.
+  Proof. intros H. cbn [follow_ok]. now rewrite H. Qed.
+  Lemma dropws_closer c r : closer c = true -> dropws (c :: r) = c :: r.
+  Proof. intros H. apply dropws_nows. now destruct (closer_facts c H) as [_ [Hw _]]. Qed.
+
+  Lemma dropws_idem s : dropws (dropws s) = dropws s.
+  Proof.
+    induction s as [|c r IH]; [reflexivity|]. cbn [dropws]. destruct (isws c) eqn:Hc; [exact IH|].
+    cbn [dropws]. now rewrite Hc.
+  Qed.
+
+  (* ---------------------------------------------------------------------------------------- *)
+  (* the formatted text                                                                         *)
+  (* ---------------------------------------------------------------------------------------- *)
+  (* the layout of the ASCII formats, written out (pinned to the generated ones in layout_std) *)
+  Definition SL : llayout :=
+    {| ll_cb0 := [40]; ll_cb1 := [41]; ll_sep := [44]; ll_sp_terms := [32]; ll_sp_items := [32];
+       ll_sb0 := [60]; ll_sb1 := [62]; ll_tb0 := [37]; ll_tb1 := [37]; ll_tsep := [59];
+       ll_bb0 := [36]; ll_bb1 := [36]; ll_bsep := [59] |}.
+  Notation F := (lfmt_term SL).
+  Definition more (ys : list lterm) : str := concat (map (fun y => 44 :: 32 :: F y) ys).
+
+  Lemma F_components t ts :
+    template_components [44] [32] (map F (t :: ts)) = F t ++ more ts.
+  Proof. cbn [map template_components]. unfold more. now rewrite map_map. Qed.
+  Lemma F_compound c t ts : F (LCompound c (t :: ts)) = 40 :: c ++ 44 :: 32 :: (F t ++ more ts) ++ [41].
+  Proof.
+    cbn [lfmt_term]. unfold template_compound. cbn [ll_cb0 ll_cb1 ll_sep ll_sp_terms SL].
+    rewrite F_components. cbn [app]. reflexivity.
+  Qed.
+  Lemma F_set l r t ts : F (LSet l (t :: ts) r) = l ++ (F t ++ more ts) ++ r.
+  Proof.
+    cbn [lfmt_term]. unfold template_compound_set. cbn [ll_sep ll_sp_terms SL]. now rewrite F_components.
+  Qed.
+  Lemma F_statement c s p : F (LStatement c s p) = 60 :: F s ++ 32 :: c ++ 32 :: F p ++ [62].
+  Proof. reflexivity. Qed.
+  Lemma more_cons y ys : more (y :: ys) = 44 :: 32 :: F y ++ more ys.
+  Proof. reflexivity. Qed.
+
+  (* ---------------------------------------------------------------------------------------- *)
+  (* keywords of the lexicon, by cases                                                          *)
+  (* ---------------------------------------------------------------------------------------- *)
+  Notation X0 := opennars_lexicon.
+  Notation wf := (lterm_wf ucls X0).
+
+  Lemma str_mem_In x l : str_mem x l = true -> In x l.
+  Proof.
+    unfold str_mem. intros H. apply existsb_exists in H as [y [Hy He]]. apply str_eqb_eq in He. now subst.
+  Qed.
+
+  Definition copula_ok (c : str) : bool :=
+    match c with
+    | [a; b; d] => cop_first a && negb (isws a) && copula_at [a; b; d]
+    | _ => false
+    end.
+  Lemma copulas_ok c : str_mem c (lx_copulas X0) = true -> copula_ok c = true.
+  Proof.
+    intros H. apply str_mem_In in H. cbn in H.
+    repeat (destruct H as [<-|H]; [unfold copula_ok, copula_at, cop_first; ascii|]). destruct H.
+  Qed.
+
+  Definition conn_ok (c : str) : bool :=
+    match c with
+    | a :: cs => punct_symb a && negb (isws a) && forallb conn_char cs
+    | [] => false
+    end.
+  Lemma connecters_ok c : str_mem c (lx_connecters X0) = true -> conn_ok c = true.
+  Proof.
+    intros H. apply str_mem_In in H. cbn in H.
+    repeat (destruct H as [<-|H]; [unfold conn_ok, conn_char; cbn [forallb]; ascii|]). destruct H.
+  Qed.
+
+  Definition prefix_ok (p : str) : bool :=
+    match p with
+    | [q] => punct_symb q && negb (95 =? q) && negb (isws q) && atom_head_ok [q]
+    | _ => false
+    end.
+  Lemma prefixes_ok p : str_mem p (lx_prefixes X0) = true -> prefix_ok p = true.
+  Proof.
+    intros H. apply str_mem_In in H. cbn in H.
+    repeat (destruct H as [<-|H]; [unfold prefix_ok, atom_head_ok, head_is; ascii|]). destruct H.
+  Qed.
+
+  (* the first character of an atom character is none of `<` `(` `{` `[` *)
+  Lemma atom_char_head c r : atom_charb c = true -> atom_head_ok (c :: r) = true.
+  Proof.
+    intros Ha. unfold atom_head_ok, head_is.
+    assert (Hn : forall x, atom_charb x = false -> (x =? c) = false).
+    { intros x Hx. destruct (N.eqb_spec x c) as [->|]; [congruence | reflexivity]. }
+    rewrite (Hn 60), (Hn 40), (Hn 123), (Hn 91) by ascii. reflexivity.
+  Qed.
+
+  (* ---------------------------------------------------------------------------------------- *)
+  (* the conformance statement for one term                                                     *)
+  (* ---------------------------------------------------------------------------------------- *)
+  Notation conv := (lterm_of_tree ucls).
+
+  Definition conf (x : lterm) : Prop :=
+    forall k, follow_ok k = true ->
+    exists k' t, E (PRef (ss "term")) NonAtomic (F x ++ k) (POk k' [t]) /\
+                 dropws k' = dropws k /\ conv t = Some x.
+
+  (* the text of a well-formed term begins with a character that is no whitespace *)
+  Lemma name_shape n :
+    name_ok_readme ucls n = true ->
+    exists c rest, n = c :: rest /\ atom_charb c = true /\ us_dash c = false /\
+                   forallb atom_charb rest = true /\ last_is_dash n = false /\ k4_free n = true /\
+                   forallb atom_charb n = true.
+  Proof.
+    unfold name_ok_readme. intros H.
+    apply andb_true_iff in H as [H Hk]. apply andb_true_iff in H as [H Hl]. apply andb_true_iff in H as [Hh Hall].
+    destruct n as [|c rest]; [discriminate|]. exists c, rest.
+    apply negb_true_iff in Hh, Hl. pose proof Hall as Hall'. cbn [forallb] in Hall.
+    apply andb_true_iff in Hall as [Hc Hr]. repeat split; assumption.
+  Qed.
+
+  Lemma wf_head_nows x k : wf x = true -> dropws (F x ++ k) = F x ++ k.
+  Proof.
+    destruct x as [p n|c ts|l ts r|c s p]; cbn [lterm_wf]; intros H.
+    - apply orb_true_iff in H as [H|H].
+      + apply andb_true_iff in H as [Hp Hn]. apply str_eqb_eq in Hp, Hn. subst p n.
+        cbn [lfmt_term app]. apply dropws_nows. ascii.
+      + apply andb_true_iff in H as [Hp Hn]. destruct (name_shape n Hn) as [c [rest [-> [Hc _]]]].
+        apply orb_true_iff in Hp as [Hp|Hp].
+        * apply str_eqb_eq in Hp. subst p. cbn [lfmt_term app]. apply dropws_nows, atom_not_ws, Hc.
+        * apply prefixes_ok in Hp. destruct p as [|q [|? ?]]; try discriminate. cbn [prefix_ok] in Hp.
+          apply andb_true_iff in Hp as [Hp _]. apply andb_true_iff in Hp as [_ Hw]. apply negb_true_iff in Hw.
+          cbn [lfmt_term app]. apply dropws_nows, Hw.
+    - destruct ts as [|t ts]; [rewrite andb_false_r in H; discriminate|]. rewrite F_compound. cbn [app].
+      apply dropws_nows. ascii.
+    - apply andb_true_iff in H as [H _]. apply andb_true_iff in H as [H Hts].
+      destruct ts as [|t ts]; [discriminate|]. rewrite F_set.
+      apply existsb_exists in H as [[l' r'] [Hin He]]. unfold pair_eqb in He. cbn [fst snd] in He.
+      apply andb_true_iff in He as [Hl Hr]. apply str_eqb_eq in Hl, Hr. subst l' r'.
+      cbn in Hin. destruct Hin as [Hin|[Hin|[]]]; injection Hin as <- <-; cbn [app]; apply dropws_nows; ascii.
+    - rewrite F_statement. cbn [app]. apply dropws_nows. ascii.
+  Qed.
+
+  (* ---- atoms ---- *)
+  Lemma strip_ws_all w : forallb isws w = true -> strip_ws ucls w = [].
+  Proof.
+    induction w as [|c w IH]; [reflexivity|]. cbn [forallb strip_ws filter]. intros H.
+    apply andb_true_iff in H as [Hc H]. unfold isws in Hc. rewrite Hc. cbn [negb]. now apply IH.
+  Qed.
+
+  Lemma strip_ws_nows c w : isws c = false -> strip_ws ucls (c :: w) = c :: strip_ws ucls w.
+  Proof. unfold isws, strip_ws. intros H. cbn [filter]. now rewrite H. Qed.
+
+  Lemma conv_placeholder txt w :
+    forallb isws w = true -> conv (Node (ss "term") txt [Node (ss "atom") (95 :: w) []]) = Some (LAtom [95] []).
+  Proof.
+    intros H.
+    transitivity (match strip_ws ucls (95 :: w) with
+                  | c :: rest => if (c =? 95) && forallb (N.eqb 95) rest then Some (LAtom [95] rest) else None
+                  | [] => None
+                  end); [reflexivity|].
+    rewrite (strip_ws_nows 95 w) by ascii. rewrite (strip_ws_all w H). reflexivity.
+  Qed.
+
+  Lemma conf_atom p n : wf (LAtom p n) = true -> conf (LAtom p n).
+  Proof.
+    cbn [lterm_wf]. intros H k Hk. apply orb_true_iff in H as [H|H].
+    - (* the placeholder *)
+      apply andb_true_iff in H as [Hp Hn]. apply str_eqb_eq in Hp, Hn. subst p n.
+      change (lx_placeholder X0) with [95]. cbn [lfmt_term app].
+      destruct (ev_atom_placeholder k (follow_placeholder k Hk)) as [w [Hw [Hall He]]].
+      eexists; eexists. split; [|split].
+      + apply ev_term_atom; [reflexivity | exact He].
+      + apply dropws_idem.
+      + apply conv_placeholder, Hall.
+    - apply andb_true_iff in H as [Hp Hn].
+      destruct (name_shape n Hn) as [c [rest [-> [Hc [Hu [Hr [Hl [Hk4 Hall]]]]]]]].
+      pose proof (nci_tail _ _ _ (nci_name (c :: rest) k Hall Hk4 Hl (follow_head k Hk))) as Hnci.
+      pose proof (follow_stop k Hk) as Hs.
+      apply orb_true_iff in Hp as [Hp|Hp].
+      + apply str_eqb_eq in Hp. subst p. cbn [lfmt_term app].
+        eexists; eexists. split; [|split].
+        * apply ev_term_atom; [apply (atom_char_head c (rest ++ k) Hc)|].
+          exact (ev_atom_word c rest k Hc Hu Hr Hnci Hs).
+        * reflexivity.
+        * reflexivity.
+      + apply prefixes_ok in Hp. destruct p as [|q [|? ?]]; try discriminate. cbn [prefix_ok] in Hp.
+        apply andb_true_iff in Hp as [Hp Hh]. apply andb_true_iff in Hp as [Hp _].
+        apply andb_true_iff in Hp as [Hq H95]. apply negb_true_iff in H95.
+        cbn [lfmt_term app].
+        eexists; eexists. split; [|split].
+        * apply ev_term_atom.
+          -- unfold atom_head_ok, head_is in *. exact Hh.
+          -- exact (ev_atom_prefixed q c rest k Hq H95 Hc Hu Hr Hnci Hs).
+        * reflexivity.
+        * reflexivity.
+  Qed.
+
+  (* ---- component lists: term ~ ("," ~ term)* ~ closing bracket ---- *)
+  Notation XT := (PSeq (PStr [44]) (PRef (ss "term"))).
+  Notation MT := (PStar XT).
+
+  Lemma ev_XT_step y rest :
+    conf y -> wf y = true -> follow_ok rest = true ->
+    exists k' t, E XT NonAtomic (44 :: 32 :: F y ++ rest) (POk k' [t]) /\ dropws k' = dropws rest /\ conv t = Some y.
+  Proof.
+    intros Hc Hw Hf. destruct (Hc rest Hf) as [k' [t [He [Hd Hv]]]]. exists k', t. split; [|split; assumption].
+    change [t] with ([] ++ [] ++ [t]).
+    eapply ev_seq_ok; [apply ev_lit1_ok | | exact He].
+    pose proof (ev_skip_na (32 :: F y ++ rest)) as Hs. rewrite (dropws_ws 32) in Hs by ascii.
+    rewrite (wf_head_nows y rest Hw) in Hs. exact Hs.
+  Qed.
+
+  Lemma closer_44 : closer 44 = true. Proof. reflexivity. Qed.
+
+  Lemma follow_more ys cl k : closer cl = true -> follow_ok (more ys ++ cl :: k) = true.
+  Proof.
+    intros H. destruct ys as [|y ys]; [exact (follow_closer cl k H)|].
+    rewrite more_cons. cbn [app]. apply follow_closer, closer_44.
+  Qed.
+  Lemma dropws_more ys cl k : closer cl = true -> dropws (more ys ++ cl :: k) = more ys ++ cl :: k.
+  Proof.
+    intros H. destruct ys as [|y ys]; [exact (dropws_closer cl k H)|].
+    rewrite more_cons. cbn [app]. apply dropws_closer, closer_44.
+  Qed.
+
+  Lemma ev_more_rep ys cl k :
+    Forall conf ys -> forallb wf ys = true -> closer cl = true -> (44 =? cl) = false ->
+    forall s, dropws s = more ys ++ cl :: k ->
+    exists s' ts, Erep XT NonAtomic s (POk s' ts) /\ dropws s' = cl :: k /\ map_opt conv ts = Some ys.
+  Proof.
+    intros Hc. induction Hc as [|y ys Hy Hys IH]; intros Hw Hcl H44 s Hs.
+    - exists s, []. split; [|split; [exact Hs | reflexivity]].
+      eapply ev_rep_nil; [apply ev_skip_na|]. rewrite Hs. apply ev_seq_fail1, ev_lit1_fail. exact H44.
+    - cbn [forallb] in Hw. apply andb_true_iff in Hw as [Hwy Hw].
+      rewrite more_cons in Hs. cbn [app] in Hs. rewrite <- app_assoc in Hs.
+      destruct (ev_XT_step y (more ys ++ cl :: k) Hy Hwy (follow_more ys cl k Hcl)) as [k' [t [He [Hd Hv]]]].
+      rewrite (dropws_more ys cl k Hcl) in Hd.
+      destruct (IH Hw Hcl H44 k' Hd) as [s' [ts [Hr [Hd' Hm]]]].
+      exists s', (t :: ts). split; [|split; [exact Hd'|]].
+      + change (t :: ts) with ([] ++ [t] ++ ts).
+        eapply ev_rep_cons; [apply ev_skip_na | rewrite Hs; exact He | exact Hr].
+      + cbn [map_opt]. now rewrite Hv, Hm.
+  Qed.
+
+  Lemma ev_more_star ys cl k :
+    Forall conf ys -> forallb wf ys = true -> closer cl = true -> (44 =? cl) = false ->
+    exists s' ts, E MT NonAtomic (more ys ++ cl :: k) (POk s' ts) /\ dropws s' = cl :: k /\ map_opt conv ts = Some ys.
+  Proof.
+    intros Hc Hw Hcl H44. destruct Hc as [|y ys Hy Hys].
+    - exists (cl :: k), []. split; [|split; [exact (dropws_closer cl k Hcl) | reflexivity]].
+      apply ev_star_nil, ev_seq_fail1, ev_lit1_fail. exact H44.
+    - cbn [forallb] in Hw. apply andb_true_iff in Hw as [Hwy Hw].
+      rewrite more_cons. cbn [app]. rewrite <- app_assoc.
+      destruct (ev_XT_step y (more ys ++ cl :: k) Hy Hwy (follow_more ys cl k Hcl)) as [k' [t [He [Hd Hv]]]].
+      rewrite (dropws_more ys cl k Hcl) in Hd.
+      destruct (ev_more_rep ys cl k Hys Hw Hcl H44 k' Hd) as [s' [ts [Hr [Hd' Hm]]]].
+      exists s', (t :: ts). split; [|split; [exact Hd'|]].
+      + change (t :: ts) with ([t] ++ ts). eapply ev_star_cons; [exact He | exact Hr].
+      + cbn [map_opt]. now rewrite Hv, Hm.
+  Qed.
+
+  Lemma ev_components t ts cl k :
+    conf t -> Forall conf ts -> wf t = true -> forallb wf ts = true -> closer cl = true -> (44 =? cl) = false ->
+    exists trees,
+      E (PSeq (PRef (ss "term")) (PSeq MT (PStr [cl]))) NonAtomic ((F t ++ more ts) ++ cl :: k) (POk k trees) /\
+      map_opt conv trees = Some (t :: ts).
+  Proof.
+    intros Ht Hts Hwt Hwts Hcl H44. rewrite <- app_assoc.
+    destruct (Ht (more ts ++ cl :: k) (follow_more ts cl k Hcl)) as [k1 [tr [He [Hd Hv]]]].
+    rewrite (dropws_more ts cl k Hcl) in Hd.
+    destruct (ev_more_star ts cl k Hts Hwts Hcl H44) as [s' [trs [Hs [Hd' Hm]]]].
+    exists (tr :: trs). split.
+    - replace (tr :: trs) with ([tr] ++ [] ++ (trs ++ [] ++ [])) by (cbn [app]; now rewrite app_nil_r).
+      eapply ev_seq_ok; [exact He | |].
+      + pose proof (ev_skip_na k1) as Hk. rewrite Hd in Hk. exact Hk.
+      + eapply ev_seq_ok; [exact Hs | | apply ev_lit1_ok].
+        pose proof (ev_skip_na s') as Hk. rewrite Hd' in Hk. exact Hk.
+    - cbn [map_opt]. now rewrite Hv, Hm.
+  Qed.
+
+  (* conversion of the nodes *)
+  Lemma conv_compound txt0 txt c trees :
+    conv (Node (ss "term") txt0 [Node (ss "compound") (40 :: txt) (Node (ss "connecter") c [] :: trees)]) =
+    match map_opt conv trees with Some xs => Some (LCompound c xs) | None => None end.
+  Proof. reflexivity. Qed.
+  Lemma conv_set_ext txt0 txt trees :
+    conv (Node (ss "term") txt0 [Node (ss "compound") (123 :: txt) trees]) =
+    match map_opt conv trees with Some xs => Some (LSet [123] xs [125]) | None => None end.
+  Proof. reflexivity. Qed.
+  Lemma conv_set_int txt0 txt trees :
+    conv (Node (ss "term") txt0 [Node (ss "compound") (91 :: txt) trees]) =
+    match map_opt conv trees with Some xs => Some (LSet [91] xs [93]) | None => None end.
+  Proof. reflexivity. Qed.
+  Lemma conv_statement txt0 txt a c b :
+    conv (Node (ss "term") txt0 [Node (ss "statement") txt [a; Node (ss "copula") c []; b]]) =
+    match conv a, conv b with Some x, Some y => Some (LStatement c x y) | _, _ => None end.
+  Proof. reflexivity. Qed.
+
+  (* a compound or statement node under `term`: the statement alternative fails unless the text starts with `<` *)
+  Lemma ev_term_compound s k t :
+    head_is 60 s = false -> E (PRef (ss "compound")) NonAtomic s (POk k [t]) ->
+    E (PRef (ss "term")) NonAtomic s (POk k [Node (ss "term") (consumed s k) [t]]).
+  Proof.
+    intros Hh Hc.
+    exact (ev_ref ucls G n0 (ss "term") _ NonAtomic s _ eq_refl
+             (ev_choice_r _ _ _ _ _ _ _ _ (ev_statement_fail s Hh) (ev_choice_l _ _ _ _ _ _ _ _ _ Hc))).
+  Qed.
+  Lemma ev_term_statement s k t :
+    E (PRef (ss "statement")) NonAtomic s (POk k [t]) ->
+    E (PRef (ss "term")) NonAtomic s (POk k [Node (ss "term") (consumed s k) [t]]).
+  Proof.
+    intros Hc. exact (ev_ref ucls G n0 (ss "term") _ NonAtomic s _ eq_refl (ev_choice_l _ _ _ _ _ _ _ _ _ Hc)).
+  Qed.
+
+  Lemma conf_compound c ts : wf (LCompound c ts) = true -> Forall conf ts -> conf (LCompound c ts).
+  Proof.
+    cbn [lterm_wf]. intros H Hts k Hk.
+    apply andb_true_iff in H as [H Hw]. apply andb_true_iff in H as [Hc Hne].
+    destruct ts as [|t ts]; [discriminate|]. cbn [forallb] in Hw. apply andb_true_iff in Hw as [Hwt Hwts].
+    inversion Hts as [|? ? Ht Hts']; subst.
+    apply connecters_ok in Hc. destruct c as [|a cs]; [discriminate|]. cbn [conn_ok] in Hc.
+    apply andb_true_iff in Hc as [Hc Hcs]. apply andb_true_iff in Hc as [Ha Haw]. apply negb_true_iff in Haw.
+    destruct (ev_components t ts 41 k Ht Hts' Hwt Hwts eq_refl eq_refl) as [trees [He Hm]].
+    rewrite F_compound.
+    set (inner := (F t ++ more ts) ++ 41 :: k) in *.
+    assert (Htxt : (40 :: (a :: cs) ++ 44 :: 32 :: (F t ++ more ts) ++ [41]) ++ k = 40 :: (a :: cs) ++ 44 :: 32 :: inner).
+    { unfold inner. repeat (progress (cbn [app]; rewrite <- ?app_assoc)). reflexivity. }
+    assert (Hbody : E (PSeq (PStr [40]) (PSeq (PRef (ss "connecter")) (PSeq (PStr [44])
+                        (PSeq (PRef (ss "term")) (PSeq MT (PStr [41])))))) NonAtomic
+                      (40 :: (a :: cs) ++ 44 :: 32 :: inner)
+                      (POk k (Node (ss "connecter") (a :: cs) [] :: trees))).
+    { change (Node (ss "connecter") (a :: cs) [] :: trees)
+        with ([] ++ [] ++ ([Node (ss "connecter") (a :: cs) []] ++ [] ++ ([] ++ [] ++ trees))).
+      eapply ev_seq_ok; [apply ev_lit1_ok | |].
+      { pose proof (ev_skip_na ((a :: cs) ++ 44 :: 32 :: inner)) as Hs. cbn [app] in Hs.
+        rewrite (dropws_nows a _ Haw) in Hs. exact Hs. }
+      eapply ev_seq_ok; [exact (ev_connecter a cs (32 :: inner) Ha Hcs) | |].
+      { pose proof (ev_skip_na (44 :: 32 :: inner)) as Hs. rewrite (dropws_closer 44 _ closer_44) in Hs. exact Hs. }
+      eapply ev_seq_ok; [apply ev_lit1_ok | | exact He].
+      pose proof (ev_skip_na (32 :: inner)) as Hs. rewrite (dropws_ws 32) in Hs by ascii.
+      unfold inner in Hs at 2. rewrite <- app_assoc in Hs. rewrite (wf_head_nows t _ Hwt) in Hs.
+      rewrite app_assoc in Hs. exact Hs. }
+    rewrite Htxt.
+    pose proof (ev_ref ucls G n0 (ss "compound") _ NonAtomic _ _ eq_refl (ev_choice_l _ _ _ _ _ _ _ _ _ Hbody)) as Hc'.
+    cbn [pr_mod rule emits] in Hc'.
+    eexists; eexists. split; [|split].
+    - apply ev_term_compound; [reflexivity | exact Hc'].
+    - reflexivity.
+    - rewrite <- Htxt. rewrite !consumed_app. cbn [app]. rewrite conv_compound, Hm. reflexivity.
+  Qed.
+
+  (* the two sets: the alternatives before the matching one fail on the opening bracket *)
+  Lemma conf_set l ts r : wf (LSet l ts r) = true -> Forall conf ts -> conf (LSet l ts r).
+  Proof.
+    cbn [lterm_wf]. intros H Hts k Hk.
+    apply andb_true_iff in H as [H Hw]. apply andb_true_iff in H as [Hb Hne].
+    destruct ts as [|t ts]; [discriminate|]. cbn [forallb] in Hw. apply andb_true_iff in Hw as [Hwt Hwts].
+    inversion Hts as [|? ? Ht Hts']; subst.
+    apply existsb_exists in Hb as [[l' r'] [Hin He]]. unfold pair_eqb in He. cbn [fst snd] in He.
+    apply andb_true_iff in He as [Hl Hr]. apply str_eqb_eq in Hl, Hr. subst l' r'.
+    rewrite F_set.
+    vm_compute in Hin. destruct Hin as [Hin|[Hin|[]]]; injection Hin as <- <-.
+    - (* { ... } *)
+      destruct (ev_components t ts 125 k Ht Hts' Hwt Hwts eq_refl eq_refl) as [trees [He Hm]].
+      set (inner := (F t ++ more ts) ++ 125 :: k) in *.
+      assert (Htxt : ([123] ++ (F t ++ more ts) ++ [125]) ++ k = 123 :: inner).
+      { unfold inner. repeat (progress (cbn [app ss]; rewrite <- ?app_assoc)). reflexivity. }
+      assert (Hbody : E (PSeq (PStr [123]) (PSeq (PRef (ss "term")) (PSeq MT (PStr [125])))) NonAtomic
+                        (123 :: inner) (POk k trees)).
+      { change trees with ([] ++ [] ++ trees).
+        eapply ev_seq_ok; [apply ev_lit1_ok | | exact He].
+        pose proof (ev_skip_na inner) as Hs. unfold inner in Hs at 2. rewrite <- app_assoc in Hs.
+        rewrite (wf_head_nows t _ Hwt) in Hs. rewrite app_assoc in Hs. exact Hs. }
+      rewrite Htxt.
+      assert (H1 : E (PSeq (PStr [40]) (PSeq (PRef (ss "connecter")) (PSeq (PStr [44])
+                        (PSeq (PRef (ss "term")) (PSeq MT (PStr [41])))))) NonAtomic (123 :: inner) PFail)
+        by (apply ev_seq_fail1, ev_lit1_fail; reflexivity).
+      pose proof (ev_ref ucls G n0 (ss "compound") _ NonAtomic _ _ eq_refl
+                    (ev_choice_r _ _ _ _ _ _ _ _ H1 (ev_choice_l _ _ _ _ _ _ _ _ _ Hbody))) as Hc'.
+      cbn [pr_mod rule emits] in Hc'.
+      eexists; eexists. split; [|split].
+      + apply ev_term_compound; [reflexivity | exact Hc'].
+      + reflexivity.
+      + rewrite <- Htxt. rewrite !consumed_app. cbn [app ss]. rewrite conv_set_ext, Hm. reflexivity.
+    - (* [ ... ] *)
+      destruct (ev_components t ts 93 k Ht Hts' Hwt Hwts eq_refl eq_refl) as [trees [He Hm]].
+      set (inner := (F t ++ more ts) ++ 93 :: k) in *.
+      assert (Htxt : ([91] ++ (F t ++ more ts) ++ [93]) ++ k = 91 :: inner).
+      { unfold inner. repeat (progress (cbn [app ss]; rewrite <- ?app_assoc)). reflexivity. }
+      assert (Hbody : E (PSeq (PStr [91]) (PSeq (PRef (ss "term")) (PSeq MT (PStr [93])))) NonAtomic
+                        (91 :: inner) (POk k trees)).
+      { change trees with ([] ++ [] ++ trees).
+        eapply ev_seq_ok; [apply ev_lit1_ok | | exact He].
+        pose proof (ev_skip_na inner) as Hs. unfold inner in Hs at 2. rewrite <- app_assoc in Hs.
+        rewrite (wf_head_nows t _ Hwt) in Hs. rewrite app_assoc in Hs. exact Hs. }
+      rewrite Htxt.
+      assert (H1 : E (PSeq (PStr [40]) (PSeq (PRef (ss "connecter")) (PSeq (PStr [44])
+                        (PSeq (PRef (ss "term")) (PSeq MT (PStr [41])))))) NonAtomic (91 :: inner) PFail)
+        by (apply ev_seq_fail1, ev_lit1_fail; reflexivity).
+      assert (H2 : E (PSeq (PStr [123]) (PSeq (PRef (ss "term")) (PSeq MT (PStr [125])))) NonAtomic (91 :: inner) PFail)
+        by (apply ev_seq_fail1, ev_lit1_fail; reflexivity).
+      pose proof (ev_ref ucls G n0 (ss "compound") _ NonAtomic _ _ eq_refl
+                    (ev_choice_r _ _ _ _ _ _ _ _ H1 (ev_choice_r _ _ _ _ _ _ _ _ H2 Hbody))) as Hc'.
+      cbn [pr_mod rule emits] in Hc'.
+      eexists; eexists. split; [|split].
+      + apply ev_term_compound; [reflexivity | exact Hc'].
+      + reflexivity.
+      + rewrite <- Htxt. rewrite !consumed_app. cbn [app ss]. rewrite conv_set_int, Hm. reflexivity.
+  Qed.
+
+  (* statements *)
+  Lemma conf_statement c s p : wf (LStatement c s p) = true -> conf s -> conf p -> conf (LStatement c s p).
+  Proof.
+    cbn [lterm_wf]. intros H Hs Hp k Hk.
+    apply andb_true_iff in H as [H Hwp]. apply andb_true_iff in H as [Hc Hws].
+    apply copulas_ok in Hc. destruct c as [|a [|b [|d [|? ?]]]]; try discriminate. cbn [copula_ok] in Hc.
+    apply andb_true_iff in Hc as [Hc Hcop]. apply andb_true_iff in Hc as [Hfirst Haw]. apply negb_true_iff in Haw.
+    rewrite F_statement.
+    set (k2 := 62 :: k).
+    set (k1 := 32 :: [a; b; d] ++ 32 :: F p ++ k2).
+    assert (Htxt : (60 :: F s ++ 32 :: [a; b; d] ++ 32 :: F p ++ [62]) ++ k = 60 :: F s ++ k1).
+    { unfold k1, k2. repeat (progress (cbn [app]; rewrite <- ?app_assoc)). reflexivity. }
+    (* subject *)
+    assert (Hf1 : follow_ok k1 = true).
+    { unfold k1. cbn [follow_ok app]. rewrite N.eqb_refl, Hfirst. now rewrite orb_true_r. }
+    destruct (Hs k1 Hf1) as [k1' [ts [He1 [Hd1 Hv1]]]].
+    assert (Hdk1 : dropws k1 = [a; b; d] ++ 32 :: F p ++ k2).
+    { unfold k1. rewrite (dropws_ws 32) by ascii. cbn [app]. apply dropws_nows, Haw. }
+    rewrite Hdk1 in Hd1.
+    (* predicate *)
+    assert (Hf2 : follow_ok k2 = true) by reflexivity.
+    destruct (Hp k2 Hf2) as [k2' [tp [He2 [Hd2 Hv2]]]].
+    assert (Hdk2 : dropws k2 = k2) by (apply dropws_closer; reflexivity).
+    rewrite Hdk2 in Hd2.
+    assert (Hbody : E (PSeq (PStr [60]) (PSeq (PRef (ss "term")) (PSeq (PRef (ss "copula"))
+                         (PSeq (PRef (ss "term")) (PStr [62]))))) NonAtomic (60 :: F s ++ k1)
+                      (POk k [ts; Node (ss "copula") [a; b; d] []; tp])).
+    { change [ts; Node (ss "copula") [a; b; d] []; tp]
+        with ([] ++ [] ++ ([ts] ++ [] ++ ([Node (ss "copula") [a; b; d] []] ++ [] ++ ([tp] ++ [] ++ [])))).
+      eapply ev_seq_ok; [apply ev_lit1_ok | |].
+      { pose proof (ev_skip_na (F s ++ k1)) as Hsk. rewrite (wf_head_nows s k1 Hws) in Hsk. exact Hsk. }
+      eapply ev_seq_ok; [exact He1 | |].
+      { pose proof (ev_skip_na k1') as Hsk. rewrite Hd1 in Hsk. exact Hsk. }
+      eapply ev_seq_ok; [apply (ev_copula_na [a; b; d] (32 :: F p ++ k2) eq_refl Hcop) | |].
+      { pose proof (ev_skip_na (32 :: F p ++ k2)) as Hsk. rewrite (dropws_ws 32) in Hsk by ascii.
+        rewrite (wf_head_nows p k2 Hwp) in Hsk. exact Hsk. }
+      eapply ev_seq_ok; [exact He2 | | apply ev_lit1_ok].
+      pose proof (ev_skip_na k2') as Hsk. rewrite Hd2 in Hsk. exact Hsk. }
+    rewrite Htxt.
+    pose proof (ev_ref ucls G n0 (ss "statement") _ NonAtomic _ _ eq_refl Hbody) as Hc'.
+    cbn [pr_mod rule emits] in Hc'.
+    eexists; eexists. split; [|split].
+    - apply ev_term_statement. exact Hc'.
+    - reflexivity.
+    - rewrite conv_statement, Hv1, Hv2. reflexivity.
+  Qed.
+
+  (* ---------------------------------------------------------------------------------------- *)
+  (* all well-formed lexical terms                                                              *)
+  (* ---------------------------------------------------------------------------------------- *)
+  Lemma forall_conf (ts : list lterm) :
+    Forall (fun y => wf y = true -> conf y) ts -> forallb wf ts = true -> Forall conf ts.
+  Proof.
+    induction 1 as [|y ys Hy Hys IH]; [constructor|]. cbn [forallb]. intros H.
+    apply andb_true_iff in H as [H1 H2]. constructor; auto.
+  Qed.
+
+  Fixpoint lterm_ind' (P : lterm -> Prop)
+      (HA : forall p n, P (LAtom p n))
+      (HC : forall c ts, Forall P ts -> P (LCompound c ts))
+      (HS : forall l ts r, Forall P ts -> P (LSet l ts r))
+      (HT : forall c s p, P s -> P p -> P (LStatement c s p)) (x : lterm) : P x :=
+    let fix go (l : list lterm) : Forall P l :=
+      match l with
+      | [] => Forall_nil P
+      | y :: l' => Forall_cons y (lterm_ind' P HA HC HS HT y) (go l')
+      end in
+    match x with
+    | LAtom p n => HA p n
+    | LCompound c ts => HC c ts (go ts)
+    | LSet l ts r => HS l ts r (go ts)
+    | LStatement c s p => HT c s p (lterm_ind' P HA HC HS HT s) (lterm_ind' P HA HC HS HT p)
+    end.
+
+  Theorem conf_all x : wf x = true -> conf x.
+  Proof.
+    induction x as [p n|c ts IH|l ts r IH|c s p IHs IHp] using lterm_ind'; intros Hw.
+    - now apply conf_atom.
+    - apply conf_compound; [exact Hw|]. apply forall_conf; [exact IH|].
+      cbn [lterm_wf] in Hw. apply andb_true_iff in Hw as [_ Hw]. exact Hw.
+    - apply conf_set; [exact Hw|]. apply forall_conf; [exact IH|].
+      cbn [lterm_wf] in Hw. apply andb_true_iff in Hw as [_ Hw]. exact Hw.
+    - pose proof Hw as Hw'. cbn [lterm_wf] in Hw'. apply andb_true_iff in Hw' as [Hw' Hwp].
+      apply andb_true_iff in Hw' as [_ Hws]. apply conf_statement; auto.
+  Qed.
 End Conf.
